@@ -47,6 +47,7 @@ func (c *Channel) read() {
 
 	defer func() {
 		c.readLoopExited.Store(true)
+		close(c.readLoopDone)
 	}()
 
 	defer simhook.Yield("chan.read.exit")
